@@ -7,6 +7,12 @@ Five exhaustive sub-enumerations over the C43 alphabet (all on the TREE's MJX):
               mj_stateSize / mj_getState / mj_setState on the same content
   makedata  : make_data(m) == put_data(m, fresh MjData), leaf by leaf (structure, shape, dtype, value)
   pytree    : flatten/unflatten, replace, tree_replace, tree_map round trips of Model and Data
+  rebind    : ONE jitted function that takes the Model as an ARGUMENT, called with a sequence of sibling models that differ
+              in one static (numpy, pytree-metadata) field: (a) the projection onto the static fields, for EVERY static
+              field of the model x a perturbation lattice {first element + 0.375 | +1 | flipped, last element changed by
+              2^-30 relative | +1 | flipped, two unequal elements swapped}; (b) forward / step, for MJCF siblings that differ
+              in one attribute stored in a static float field (sensor cutoff, fixed-tendon coefficient).  Oracle: the
+              sibling's own numpy values (a) / a freshly created jit (empty cache) called with that sibling only (b).
 """
 from __future__ import annotations
 
@@ -475,8 +481,196 @@ def check_pytree(J, lib, part, item):
             part.violation("tree_replace(%s) changes other leaves" % path, "changed %s (model %s)" % (changed[:5], item["name"]), {"xml": item["xml"]})
 
 
+# ------------------------------------------------------------------------------------------------ rebind
+
+def static_fields(J, obj, prefix=()):
+    """[(path tuple, ndarray)] of every numpy-valued field that is pytree METADATA (not a leaf), through nested dataclasses
+    and tuples of arrays."""
+    import dataclasses as dc
+    leaves = set(id(x) for x in J.jax.tree_util.tree_leaves(obj))
+    out = []
+    for f in dc.fields(obj):
+        v = getattr(obj, f.name)
+        if isinstance(v, np.ndarray):
+            if id(v) not in leaves:
+                out.append((prefix + (f.name,), v))
+        elif isinstance(v, tuple) and v and all(isinstance(x, np.ndarray) for x in v):
+            out += [(prefix + (f.name, k), x) for k, x in enumerate(v) if id(x) not in leaves]
+        elif dc.is_dataclass(v) and not isinstance(v, type):
+            out += static_fields(J, v, prefix + (f.name,))
+    return out
+
+
+def get_path(obj, path):
+    for p in path:
+        obj = obj[p] if isinstance(p, int) else getattr(obj, p)
+    return obj
+
+
+def set_path(obj, path, val):
+    if len(path) == 1:
+        return obj.replace(**{path[0]: val})
+    if len(path) == 2 and isinstance(path[1], int):
+        t = list(getattr(obj, path[0]))
+        t[path[1]] = val
+        return obj.replace(**{path[0]: tuple(t)})
+    return obj.replace(**{path[0]: set_path(getattr(obj, path[0]), path[1:], val)})
+
+
+def path_str(path):
+    return "".join("[%d]" % p if isinstance(p, int) else "." + p for p in path).lstrip(".")
+
+
+def perturbations(a):
+    """Sibling values of one static array: [(tag, array)] (same shape and dtype, at least one byte different)."""
+    kind = a.dtype.kind
+    flat = a.reshape(-1)
+
+    def mod(i, fn):
+        b = a.copy()
+        bf = b.reshape(-1)
+        with np.errstate(all="ignore"):
+            bf[i] = fn(bf[i])
+        return b
+    out = []
+    if kind == "f":
+        out.append(("first+0.375", mod(0, lambda x: x + 0.375)))
+        out.append(("last*(1+2^-30)", mod(-1, lambda x: x * (1.0 + 2.0 ** -30) if x != 0 else 2.0 ** -30)))
+    elif kind == "b":
+        out.append(("first flipped", mod(0, lambda x: not x)))
+        out.append(("last flipped", mod(-1, lambda x: not x)))
+    elif kind in "iu":
+        out.append(("first+1", mod(0, lambda x: x + 1)))
+        out.append(("last+1", mod(-1, lambda x: x + 1)))
+    else:
+        return []
+    for j in range(1, flat.size):      # permutation: first pair of unequal elements swapped (multiset of values unchanged)
+        if flat[j] != flat[0] and not (flat[j] != flat[j] or flat[0] != flat[0]):
+            b = a.copy()
+            bf = b.reshape(-1)
+            bf[0], bf[j] = flat[j], flat[0]
+            out.append(("two elements swapped", b))
+            break
+    return [(t, b) for t, b in out if b.tobytes() != a.tobytes()]
+
+
+KIND_NAME = {"f": "float", "i": "int", "u": "int", "b": "bool"}
+
+
+def check_rebind_fields(J, lib, part, item):
+    """jit(projection onto the static fields)(model): one jitted function, the model is its argument, called for the base
+    model, every sibling (one static field perturbed) and the base model again."""
+    jax, jp = J.jax, J.jp
+    mw = J.mujoco.MjModel.from_xml_string(item["xml"])
+    try:
+        mx = J.mjx.put_model(mw)
+    except NotImplementedError:
+        part.add("rejected_not_implemented")
+        return
+    fields = [(p_, a) for p_, a in static_fields(J, mx) if a.size and a.dtype.kind in "fiub"]
+    part.add("rebind_static_fields", len(fields))
+    part.add("rebind_static_fields_empty_skipped", len(static_fields(J, mx)) - len(fields))
+    paths = [p_ for p_, _ in fields]
+
+    def project(m):      # under jit the static fields of m are numpy constants: one device constant per call
+        return jp.asarray(np.concatenate([np.asarray(get_path(m, p_)).astype(float).reshape(-1) for p_ in paths]))
+
+    def eager(m):
+        return np.concatenate([np.asarray(get_path(m, p_)).astype(float).reshape(-1) for p_ in paths])
+    shared = jax.jit(project)
+    base_struct = jax.tree_util.tree_structure(mx)
+
+    def judge(m, tag, path, kind, i):
+        got = np.asarray(shared(m))
+        want = eager(m)
+        if got.shape != want.shape or not np.array_equal(got, want, equal_nan=True):
+            part.violation("reused jit(f)(model) returns the previous model's constants: static %s field, %s" % (kind, tag.split(" @ ")[0]),
+                           "jit(projection)(sibling) != the sibling's own values after the same jitted function was called with the base "
+                           "model: field %s, perturbation %s, model %s (%d entries differ)"
+                           % (path, tag, item["name"], int(np.sum(got != want)) if got.shape == want.shape else -1),
+                           {"xml": item["xml"], "field": path, "perturbation": tag, "index": i})
+    judge(mx, "base", "-", "-", -1)
+    n = 0
+    for p_, a in fields:
+        for tag, b in perturbations(a):
+            sib = set_path(mx, p_, b)
+            n += 1
+            kind = KIND_NAME[a.dtype.kind]
+            part.count(1, key=(item["name"], "rebind", path_str(p_), tag),
+                       sample={"model": item["name"], "field": path_str(p_), "perturbation": tag} if n == 2 else None)
+            if jax.tree_util.tree_structure(sib) == base_struct:
+                part.violation("pytree metadata of two models with different static %s arrays compares equal (%s)" % (kind, tag),
+                               "tree_structure(model) == tree_structure(sibling) although field %s differs (%s), model %s"
+                               % (path_str(p_), tag, item["name"]), {"xml": item["xml"], "field": path_str(p_), "perturbation": tag})
+            judge(sib, tag, path_str(p_), kind, n)
+    judge(mx, "base again", "-", "-", n)
+    part.add("rebind_field_siblings", n)
+
+
+REBIND_AXES = {      # MJCF attribute stored in a static float field -> (anchor text in the base model, replacement values)
+    "sensor_cutoff": [('cutoff="0.1"', 'cutoff="0.19"'), ('cutoff="0.5"', 'cutoff="0.9"'), ('cutoff="0.5"', 'cutoff="0.05"')],
+    "wrap_prm(fixed-tendon coef)": [('coef="1.3"', 'coef="1.7"'), ('coef="-0.7"', 'coef="-0.2"')],
+}
+
+
+def check_rebind_pipeline(J, lib, part, item):
+    """jit(f)(model, data, states) / jit(vmap f): one jitted function reused for MJCF siblings that differ in one attribute
+    kept in a static float field; each result must equal that of a freshly created jit (empty cache) called with that sibling only."""
+    jax = J.jax
+    f = fn_table(J)[item["fn"]]
+    axis = item["axis"]
+    xmls = [("base", item["xml"])]
+    for a_, b_ in REBIND_AXES[axis]:
+        if a_ not in item["xml"]:
+            raise ValueError("rebind anchor %r not in model %s" % (a_, item["name"]))
+        xmls.append(("%s->%s" % (a_, b_), item["xml"].replace(a_, b_, 1)))
+    xmls.append(("base again", item["xml"]))
+    mt = lib.load_xml(item["xml"])
+    states = H.states_for(mt, item["kind"], item["nstate"])
+    S = H.batch_states(J, states)
+    mt.free()
+    batched = item["wrap"] == "jit_vmap"
+
+    def h(m, d0, s):
+        g = lambda s_: f(m, H.apply_state(d0, s_))
+        return jax.vmap(g)(s) if batched else g(s)
+    shared = jax.jit(h)
+    arg = S if batched else {k: v[1] for k, v in S.items()}
+    stats = part.setdefault("stats", {})
+    prev = None
+    for k, (label, xml) in enumerate(xmls):
+        mw = J.mujoco.MjModel.from_xml_string(xml)
+        mx = J.mjx.put_model(mw)
+        dx0 = J.mjx.make_data(mw)
+        got = shared(mx, dx0, arg)
+
+        def fresh(m, d0, s):       # a new function object per sibling: its jit cache is empty, so it is traced with THIS model
+            return h(m, d0, s)
+        want = jax.jit(fresh)(mx, dx0, arg)
+        lg, lw = leaves_with_names(J, got), leaves_with_names(J, want)
+        differs = prev is not None and any(nerr(a, b) > 1 for (_, a), (_, b) in zip(lw, prev))
+        prev = lw
+        part.count(1, key=(item["name"], item["fn"], item["wrap"], axis, k) if (differs or k == 0) else None,
+                   sample={"model": item["name"], "fn": item["fn"], "wrap": item["wrap"], "axis": axis, "sibling": label} if k == 1 else None)
+        if k and not differs:
+            part.add("rebind_sibling_without_effect")
+        worst, wname = 0.0, None
+        for (name, a), (_, b) in zip(lg, lw):
+            e = nerr(a, b)
+            if e > worst:
+                worst, wname = e, name
+        kk = "rebind:%s(%s)" % (item["wrap"], item["fn"])
+        stats[kk] = max(stats.get(kk, 0.0), worst if np.isfinite(worst) else 1e300)
+        if [n_ for n_, _ in lg] != [n_ for n_, _ in lw] or worst > 1:
+            part.violation("reused %s(%s) with the model as argument != fresh jit of the same model: static field %s changed"
+                           % (item["wrap"], item["fn"], axis),
+                           "sibling %d (%s) of model %s: leaf %s differs from a fresh jit called with this sibling only (normalised err %.3g, tol 1)"
+                           % (k, label, item["name"], wname, worst),
+                           {"xml": xml, "base_xml": item["xml"], "fn": item["fn"], "wrap": item["wrap"], "sibling": label})
+
+
 KINDS = {"transform": check_transform, "transfer": check_transfer, "state": check_state, "makedata": check_makedata,
-         "pytree": check_pytree}
+         "pytree": check_pytree, "rebind-fields": check_rebind_fields, "rebind-pipeline": check_rebind_pipeline}
 
 
 def _chunk(chunk):
@@ -555,6 +749,15 @@ def alphabet(thorough):
         items.append(dict(m, task="transfer", nstate=8 if thorough else 4, stepfirst=bool(mi % 2)))
         items.append(dict(m, task="makedata"))
         items.append(dict(m, task="pytree"))
+    # rebind: one jitted function, the model is an argument, sequence of sibling models (see module docstring)
+    for m in ([m3, m4] if not thorough else models[:6] + minis):
+        items.append(dict(m, task="rebind-fields"))
+    r0 = G.tree_model("rebind[hinge,slide]", (-1, 0), ("hinge", "slide"), newton(0), tendon=True, actuators=0, sensors=1)
+    axes = list(REBIND_AXES)
+    combos = ([(axes[0], "forward", "jit_vmap"), (axes[1], "step", "jit")] if not thorough else
+              [(a_, fn, w_) for a_ in axes for fn in ("forward", "step") for w_ in ("jit", "jit_vmap")])
+    for a_, fn, w_ in combos:
+        items.append(dict(r0, task="rebind-pipeline", axis=a_, fn=fn, wrap=w_, nstate=4))
     # all 2^14 signatures on the state model (+ one more model in thorough), sharded
     sm = [state_model(newton(0))] + ([dict(m1, name="constr-state")] if thorough else [])
     # every signature costs one XLA compilation of a differently shaped concatenate (~30 ms): the quick tier enumerates
@@ -587,7 +790,7 @@ def run(ctx):
     if only:
         items = [it for it in items if any(t in (it["name"] + " " + it.get("task", "") + " " + it.get("fn", "")) for t in only.split(";"))]
         ctx.exhaustive = False
-    order = {"transform": 0, "state": 1, "transfer": 2, "makedata": 3, "pytree": 4}
+    order = {"transform": 0, "rebind-pipeline": 0, "state": 1, "rebind-fields": 1, "transfer": 2, "makedata": 3, "pytree": 4}
     items.sort(key=lambda it: (order[it["task"]], 0 if it.get("fn") in ("step", "step2", "forward") else 1))
     mg = _Merger(ctx)
     core.pmap(mg, _chunk, items, nchunks=len(items))
